@@ -939,6 +939,129 @@ void utf8_invalid_wide()
       }
 }
 
+// A codecvt facet that KEEPS STATE between calls: the wide side is UTF-16 (surrogate pairs), a high surrogate is consumed
+// into the mbstate_t and the 4 output bytes are produced when the low surrogate arrives.  When the output buffer fills
+// exactly in between, the conversion is resumed by the library with the state the facet left behind.  (The state of the
+// glibc locales is always initial between characters, so they cannot show how the state is carried.)
+struct utf16_state_facet : std::codecvt<wchar_t, char, std::mbstate_t>
+{
+  using base = std::codecvt<wchar_t, char, std::mbstate_t>;
+  utf16_state_facet() : base() {}
+  result do_out(state_type &st, intern_type const *from, intern_type const *from_end, intern_type const *&from_next, extern_type *to,
+                extern_type *to_end, extern_type *&to_next) const override
+  {
+    from_next = from;
+    to_next = to;
+    auto const put = [&to_next](char32_t cp) {
+      std::string const u = utf8(cp);
+      for (char ch : u)
+        *to_next++ = ch;
+    };
+    while (from_next != from_end)
+    {
+      char32_t const u = static_cast<char32_t>(*from_next);
+      if (st.__count != 0)
+      {
+        if (u < 0xDC00 || u > 0xDFFF)
+          return error;
+        if (to_end - to_next < 4)
+          return partial;
+        put(0x10000 + ((static_cast<char32_t>(st.__value.__wch) - 0xD800) << 10) + (u - 0xDC00));
+        st = state_type{};
+        ++from_next;
+        continue;
+      }
+      if (u >= 0xD800 && u <= 0xDBFF)
+      {
+        st.__count = 1;
+        st.__value.__wch = static_cast<unsigned>(u);
+        ++from_next;
+        continue;
+      }
+      if ((u >= 0xDC00 && u <= 0xDFFF) || u > 0xFFFF)
+        return error;
+      std::ptrdiff_t const need = u < 0x80 ? 1 : u < 0x800 ? 2 : 3;
+      if (to_end - to_next < need)
+        return partial;
+      put(u);
+      ++from_next;
+    }
+    return ok;
+  }
+  result do_in(state_type &, extern_type const *from, extern_type const *, extern_type const *&from_next, intern_type *to, intern_type *,
+               intern_type *&to_next) const override
+  {
+    from_next = from;
+    to_next = to;
+    return error;
+  }
+  result do_unshift(state_type &, extern_type *to, extern_type *, extern_type *&to_next) const override
+  {
+    to_next = to;
+    return noconv;
+  }
+  int do_encoding() const noexcept override { return 0; }
+  bool do_always_noconv() const noexcept override { return false; }
+  int do_length(state_type &, extern_type const *from, extern_type const *end, std::size_t max) const override
+  {
+    return static_cast<int>(std::min<std::size_t>(max, static_cast<std::size_t>(end - from)));
+  }
+  int do_max_length() const noexcept override { return 4; }
+};
+
+void stateful_facet()
+{
+  std::string e = "utf8/stateful-codecvt-facet";
+  if (!vf::entry_enabled(e))
+    return;
+  vf::set_entry(e);
+  std::locale const loc(std::locale::classic(), new utf16_state_facet);
+  std::uint64_t idx = 0;
+  // ASCII / 2-byte / 3-byte prefixes of every length 0..40, then 1..3 surrogate pairs, then a suffix
+  for (unsigned prefix_kind = 0; prefix_kind < 3; ++prefix_kind)
+    for (std::size_t plen = 0; plen <= 40; ++plen)
+      for (unsigned pairs = 1; pairs <= 3; ++pairs)
+        for (unsigned suffix = 0; suffix < 2; ++suffix)
+        {
+          if (!vf::mine(idx++))
+            continue;
+          std::wstring w;
+          std::string want;
+          char32_t const pc = prefix_kind == 0 ? U'a' : prefix_kind == 1 ? char32_t{0xE9} : char32_t{0x20AC};
+          for (std::size_t k = 0; k < plen; ++k)
+          {
+            w += static_cast<wchar_t>(pc);
+            want += utf8(pc);
+          }
+          for (unsigned k = 0; k < pairs; ++k)
+          {
+            char32_t const cp = 0x1F600 + k;
+            w += static_cast<wchar_t>(0xD800 + ((cp - 0x10000) >> 10));
+            w += static_cast<wchar_t>(0xDC00 + ((cp - 0x10000) & 0x3FF));
+            want += utf8(cp);
+          }
+          if (suffix)
+          {
+            w += L'z';
+            want += 'z';
+          }
+          if (!vf::begin_case("prefix %zu x U+%04X, %u surrogate pair(s)%s", plen, static_cast<unsigned>(pc), pairs, suffix ? ", suffix z" : ""))
+            continue;
+          vf::sample_case(1);
+          vf::note_distinct(vf::hash_mix(vf::hash_str(e), vf::hash_str(want)));
+          auto const n = fcppt::narrow_locale(w, loc);
+          VF_COUNT("utf8/stateful-facet/strings");
+          if (!n.has_value())
+            vf::violation("utf8/narrow_locale/stateful-facet/nothing-for-valid-text", "mismatch", cps(w) + "want " + hexs(want));
+          else if (n.get_unsafe() != want)
+            vf::violation("utf8/narrow_locale/stateful-facet/wrong", "mismatch", cps(w) + "-> " + hexs(n.get_unsafe()) + " want " + hexs(want));
+          // a string that ENDS inside a pair is incomplete: failure, never a truncated success
+          std::wstring cut = w.substr(0, plen + 1);
+          if (fcppt::narrow_locale(cut, loc).has_value())
+            vf::violation("utf8/narrow_locale/stateful-facet/incomplete-input-accepted", "mismatch", cps(cut));
+        }
+}
+
 void utf8_random_strings()
 {
   std::string e = "utf8/random-strings";
@@ -1063,7 +1186,7 @@ void io_string_wrappers()
 
 void body()
 {
-  for (char const *b : {"io/write-read", "vector/sequences-in-one-stream", "vector/non-decimal-base-roundtrips", "io/read-from-failed-stream", "io/write-to-full-device", "utf8/invalid-wide/reported-as-failure", "text/grouping-locale/written-with-separator", "text/roundtrips", "text/char-types", "text/malformed", "enum/roundtrips", "enum/non-names",
+  for (char const *b : {"io/write-read", "vector/sequences-in-one-stream", "vector/non-decimal-base-roundtrips", "io/read-from-failed-stream", "io/write-to-full-device", "utf8/invalid-wide/reported-as-failure", "utf8/stateful-facet/strings", "text/grouping-locale/written-with-separator", "text/roundtrips", "text/char-types", "text/malformed", "enum/roundtrips", "enum/non-names",
                         "vector/roundtrips", "vector/malformed", "utf8/strings", "utf8/scalars-singly", "utf8/narrow-growth/x4",
                         "utf8/narrow-growth/x2-3", "utf8/narrow-growth/lt-x2", "utf8/incomplete-input", "utf8/invalid-input",
                         "utf8/env-locale-strings", "io-string/roundtrips"})
@@ -1104,6 +1227,7 @@ void body()
   utf8_scalars();
   utf8_random_strings();
   utf8_invalid_wide();
+  stateful_facet();
   io_string_wrappers();
 }
 }
